@@ -25,6 +25,7 @@
 #include <string>
 #include <unordered_set>
 #include <vector>
+#include <csignal>
 #include <fcntl.h>
 #include <sys/mman.h>
 #include <unistd.h>
@@ -329,6 +330,13 @@ struct Runner {
         set_threads(cf.threads);
         Tape t(cf.tape);
         Ctx c; c.threads = cf.threads; c.include_known = include_known;
+        // if the case dies with a signal, still say what it was
+        static const Ctx *dying = nullptr; dying = &c;
+        auto handler = [](int sig) {
+            if (dying) { std::string d = "case (killed by signal " + std::to_string(sig) + "): " + dying->desc.str() + "\nFAIL: terminated by signal " + std::to_string(sig) + "\n"; (void)!write(1, d.data(), d.size()); }
+            _exit(128 + sig);
+        };
+        signal(SIGSEGV, handler); signal(SIGBUS, handler); signal(SIGFPE, handler); signal(SIGILL, handler);
         Outcome o = run_case(*p, t, c);
         std::cout << "case: " << c.desc.str() << std::endl;
         if (!c.excluded.empty()) std::cout << "EXCLUDED: " << c.excluded << std::endl;
